@@ -14,8 +14,8 @@ import impl
 RULE = ("fixed families at scale: reflection-free cascade of N two-ports with exact unit-modulus rational phases "
         "(closed form: product), cascade of N weakly reflecting lossy two-ports (reference: dense numpy network solve), "
         "n x n mesh of beam splitters and phase shifters (unitarity + dense reference), lossy resonant chain of "
-        "mirror-waveguide cells, d-level nest of a two-port, the lossy cascade cut into three large sub-solvers; sizes quick 500 / 300 / 6x6 / 100 / 40 / 600, thorough "
-        "2000 / 1000 / 14x14 / 400 / 60 / 3000; distinct = family x size; all non-trivial")
+        "mirror-waveguide cells, d-level nest of a two-port, the lossy cascade cut into three large sub-solvers, a chain of phase shifters each with its own parameter name; sizes quick 500 / 300 / 6x6 / 100 / 40 / 600 / 150, thorough "
+        "2000 / 1000 / 14x14 / 400 / 60 / 3000 / 1000; distinct = family x size; all non-trivial")
 TRUSTED = ["numpy dense solve of the global network system as reference at scale", "IEEE-754 accumulation behaviour is measured, not proved"]
 ASSUMPTIONS = ["relative accuracy target 1e-9"]
 EXPLANATION = "exact size-generic closed form / boundedness / definedness as Lean theorems; floating-point accuracy at scale is measured"
@@ -216,6 +216,31 @@ def family_blocked(ctx, n, rng):
     return rel_err(T, R)
 
 
+def family_many_params(ctx, n, rng):
+    """a chain of n phase shifters each with its *own* parameter name (a programmable mesh has one knob per element):
+    closed form = product of the phases; half of the knobs are set at solve time, the others stay at their defaults"""
+    L = impl.lk()
+    r = np.random.default_rng(rng.randrange(2 ** 32))
+    sol = L.Solver()
+    sts, vals = [], []
+    for k in range(n):
+        d = float(r.uniform(-1, 1))
+        st = L.Structure(model=L.PhaseShifter(param_name=f"knob{k}", param_default=d))
+        sol.add_structure(st)
+        sts.append(st)
+        vals.append(d)
+    for k in range(n - 1):
+        sol.connect(sts[k], "b0", sts[k + 1], "a0")
+    sol.map_pins({L.Pin("IN"): (sts[0], L.Pin("a0")), L.Pin("OUT"): (sts[-1], L.Pin("b0"))})
+    kw = {}
+    for k in range(0, n, 2):
+        vals[k] = float(r.uniform(-1, 1))
+        kw[f"knob{k}"] = vals[k]
+    T = impl.solved_matrix(sol.solve(**kw), ["IN", "OUT"])[0]
+    exact = np.exp(1j * np.pi * float(np.sum(vals)))
+    return rel_err(T, np.array([[0, exact], [exact, 0]]))
+
+
 def family_nest(ctx, depth, rng):
     L = impl.lk()
     z = PHASES[0]
@@ -249,7 +274,8 @@ def run(ctx):
     plan = [("cascade", family_cascade, 500 if q else 2000), ("lossy-cascade", family_lossy_cascade, 300 if q else 1000),
             ("weak-reflection-cascade", family_weak_reflection, 400 if q else 2000),
             ("mesh", family_mesh, 6 if q else 14), ("resonant-chain", family_resonant, 100 if q else 400),
-            ("nest", family_nest, 40 if q else 60), ("blocked-cascade", family_blocked, 600 if q else 3000)]
+            ("nest", family_nest, 40 if q else 60), ("blocked-cascade", family_blocked, 600 if q else 3000),
+            ("many-parameters", family_many_params, 150 if q else 1000)]
     import sys
     measured = {}
     for name, fn, size in plan:
@@ -275,7 +301,7 @@ def run(ctx):
 def replay(ctx, data):
     rng = ctx.subrng("c20")
     fn = {"cascade": family_cascade, "lossy-cascade": family_lossy_cascade, "mesh": family_mesh, "weak-reflection-cascade": family_weak_reflection,
-          "resonant-chain": family_resonant, "nest": family_nest, "blocked-cascade": family_blocked}[data["family"]]
+          "resonant-chain": family_resonant, "nest": family_nest, "blocked-cascade": family_blocked, "many-parameters": family_many_params}[data["family"]]
     try:
         out = fn(ctx, data["size"], rng)
         err = out[0] if isinstance(out, tuple) else out
